@@ -395,7 +395,7 @@ impl Variant {
     pub fn from_index(first: u64, prop: &str) -> Variant {
         let alt = (first / 4) % 2 == 1;
         let other_domain = first % 3 == 1;
-        Variant { path_trace: first % 2 == 1, udp: (first / 2) % 2 == 1, swap: alt && prop != "C12" && prop != "C06" && prop != "C09" && prop != "C08", p2p: (alt && (prop == "C12" || prop == "C09")) || prop == "C14", sdo: if other_domain { 0x1a5 } else { 0 }, domain: if other_domain { 7 } else { 0 }, alt, aml: (prop == "C14" || prop == "C07") && first % 2 == 1, long_timeout: prop == "C14", slow_other_port: prop == "C06" && alt, asym_ns: if prop == "C09" { [0i64, -2_000_000, 1_500_000, 12_345_678][(first % 4) as usize] } else { 0 }, own_p1: if prop == "C05" { [128u8, 127, 129, 128][(first % 4) as usize] } else { 128 }, slave_only: prop == "C08" && alt && first % 2 == 0, master_only: if prop == "C08" && alt { [None, Some('b'), Some('b'), Some('a')][(first % 4) as usize] } else { None } }
+        Variant { path_trace: first % 2 == 1, udp: (first / 2) % 2 == 1, swap: alt && prop != "C12" && prop != "C06" && prop != "C09" && prop != "C08", p2p: (alt && (prop == "C12" || prop == "C09")) || prop == "C14", sdo: if other_domain { 0x1a5 } else { 0 }, domain: if other_domain { 7 } else { 0 }, alt, aml: (prop == "C14" || prop == "C07") && first % 2 == 1, long_timeout: prop == "C14", slow_other_port: prop == "C06" && alt, asym_ns: if prop == "C09" { [0i64, -2_000_000, 1_500_000, 12_345_678][(first % 4) as usize] } else { 0 }, own_p1: if prop == "C05" { [128u8, 127, 129, 128][(first % 4) as usize] } else { 128 }, slave_only: prop == "C08" && alt && first % 2 == 0, master_only: if prop == "C08" && alt { [None, Some('b'), Some('b'), Some('a')][(first % 4) as usize] } else if prop == "C07" && alt { Some('b') } else { None } }
     }
     pub fn index(&self) -> u64 {
         self.path_trace as u64 + 2 * self.udp as u64 + 4 * self.alt as u64
@@ -2642,7 +2642,9 @@ pub fn case_c07(w: &mut World, t: &mut Tape) -> E2eOut {
                     ann_seq = ann_seq.wrapping_add(1);
                     let mut a = simple_announce(noise_id.clock, 1, 6, 0);
                     a.gm_identity = noise_id.clock;
-                    let mut m = announce_from(noise_id, ann_seq, a, 0, 0);
+                    // (the daemon's own clock identity is not on its list either)
+                    let src = *t.pick(&[noise_id, noise_id, PortId { clock: w.own_identity, port: 0 }, PortId { clock: w.own_identity, port: 7 }]);
+                    let mut m = announce_from(src, ann_seq, a, 0, 0);
                     m.header.log_interval = ANN_LOG;
                     let b = finish(t, m, 9, &mut classes);
                     *classes.entry("announce-outside-acceptable-list").or_default() += 1;
@@ -2671,7 +2673,7 @@ pub fn case_c07(w: &mut World, t: &mut Tape) -> E2eOut {
     w.emulate_master = false;
     let frames = std::mem::take(&mut w.frames_b);
     let total: u64 = classes.values().sum();
-    let rendered = json!({"run_ms": run_ms, "noise": classes, "acceptable_master_list": aml, "syncs_sent": w.syncs_sent.len(), "delay_requests_answered": w.dreqs_answered.len()});
+    let rendered = json!({"run_ms": run_ms, "noise": classes, "acceptable_master_list": aml, "master_only_second_port": w.variant.master_only.is_some(), "syncs_sent": w.syncs_sent.len(), "delay_requests_answered": w.dreqs_answered.len()});
     out.render = rendered.clone();
     if !w.alive() {
         out.fail("daemon exited", rendered.to_string());
@@ -2700,9 +2702,25 @@ pub fn case_c07(w: &mut World, t: &mut Tape) -> E2eOut {
     if (n_sync > w.syncs_sent.len() + 2 || n_delay > w.dreqs_answered.len() + 2) && out.violation.is_none() {
         out.fail("daemon: more measurements than honest exchanges", format!("{} offset measurements for {} Syncs, {} delay measurements for {} answered Delay_Reqs ; {}", n_sync, w.syncs_sent.len(), n_delay, w.dreqs_answered.len(), rendered));
     }
-    // the master port: Announces count on by one with one content; nobody in another domain is answered
+    // the master port: Announces count on by one with one content; nobody in another domain is answered; no Announce
+    // or Sync ahead of its timer (a timer cannot fire early, so two of a kind are never closer than the interval)
     let mut last_ann: Option<(u16, String)> = None;
-    for (_, m) in &frames {
+    let mut last_at: [Option<u128>; 2] = [None, None];
+    for (at, m) in &frames {
+        let k = match &m.body {
+            RBody::Announce(_) => Some(0),
+            RBody::Sync { .. } => Some(1),
+            _ => None,
+        };
+        if let Some(k) = k {
+            if let Some(prev) = last_at[k] {
+                let gap_ms = (*at as i128 - prev as i128) as f64 / 1e6;
+                if gap_ms < 0.8 * ANN_MS as f64 && out.violation.is_none() {
+                    out.fail("daemon: the master port's schedule was disturbed by ignorable traffic", format!("two {}s of the master port {:.1} ms apart (interval {} ms) ; {}", if k == 0 { "Announce" } else { "Sync" }, gap_ms, ANN_MS, rendered));
+                }
+            }
+            last_at[k] = Some(*at);
+        }
         match &m.body {
             RBody::Announce(a) => {
                 let content = format!("{:?}", (a.gm_identity, a.gm_priority1, a.gm_priority2, a.gm_class, a.steps_removed));
